@@ -367,7 +367,7 @@ def gen_case(rng, ep=None, bias=None):
         if cfg["state"] == "empty":
             cfg["state"] = "some"
     elif ep.startswith("Adam.") or ep.startswith("GradAscent."):
-        cfg = {"dtype": cfg["dtype"]}
+        cfg = {"dtype": cfg["dtype"], "l2": rng.choice([0, 1])}      # l2 = 1: non-default options (AdamOpt l2_coeff = 0.5)
     elif ep == "viz":
         which = rng.choice(["parallel_axes", "parallel_axes", "grid", "cvt", "sliding", "proximity"])
         cfg = base_cfg(rng, which if which != "parallel_axes" else rng.choice(["grid", "cvt"]))
@@ -404,7 +404,7 @@ SIMPLER = {  # per config key: values in order of preference (simplest first); t
     "state": ["empty", "some", "dense", "full"], "n": [1, 2, 4], "extras": [0, 1], "dtype": ["float64", "float32"], "mae": [0, 1],
     "result": [0, 1], "mode": ["batch", "single"], "spy": [0, 1], "intent": ["mixed", "reject"], "lc": [0, 1], "kd": [1, 0],
     "emitters": [["gaussian"], ["gaussian", "es"], ["es", "isoline"]], "pseed": [0], "normalize": [1, 0], "init": [0, 1],
-    "rtype": ["dict"], "cap": [6, 3, 1],
+    "rtype": ["dict"], "cap": [6, 3, 1], "l2": [0, 1],
 }
 LAYOUT_RANK = {"pylist": 0, "exact": 1, "otherdtype": 2, "view": 3, "noncontig": 4}
 
@@ -550,6 +550,27 @@ def read_paths_case(rng, driver, rep):
         rep.violation("writing into arrays handed out by ArchiveDataFrame.get_field / iterelites changed the frame, a later read of it, or the store",
                       {"kind": "oracle", "case": {"readpaths": kind, "dtype": dt.name, "cap": cap, "ops": ops}, "first_read": first, "second_read": second,
                        "frame_changed": canon(df) != df_before, "theorems_at_stake": ["C12_read_paths_agree"]}, True, {"kind": "df-read-not-a-copy"})
+    # frames the user derived with ordinary pandas operations (re-ordered, filtered, label order != position) are ArchiveDataFrames too:
+    # on them get_field, iterelites and the scalar columns must still present the same elites in the same (the frame's) order
+    if len(df) >= 2:
+        derived = {"reversed": df.iloc[::-1], "sorted_desc": df.sort_values("objective", ascending=False),
+                   "filtered": df[df["objective"] >= float(np.median(df["objective"]))], "shuffled": df.sample(frac=1.0, random_state=rng.randrange(1 << 30))}
+        for how, d2 in derived.items():
+            want = [[int(i), int(o)] for i, o in zip(d2["index"], d2["objective"])]
+            try:
+                g2 = {f: d2.get_field(f) for f in fields + ["index"]}
+                got_gf = [[int(g2["index"][k]), dec_row({f: g2[f][k] for f in fields})] for k in range(len(d2))]
+                got_it = [[int(e["index"]), dec_row({f: e[f] for f in fields})] for e in d2.iterelites()]
+            except Exception as e:  # noqa
+                got_gf, got_it = "raised %r" % (e,), None
+            rep.count("derived_frames")
+            if got_gf != want or got_it != want:
+                rep.violation("on a %s ArchiveDataFrame, get_field / iterelites do not present the frame's elites in the frame's order: rows %s, "
+                              "get_field %s, iterelites %s" % (how, want[:6], str(got_gf)[:120], str(got_it)[:120]),
+                              {"kind": "oracle", "case": {"readpaths": kind, "dtype": dt.name, "cap": cap, "ops": ops, "derived": how},
+                               "rows": want, "get_field": got_gf, "iterelites": got_it, "theorems_at_stake": ["C12_read_paths_agree"]},
+                              True, {"kind": "df-derived-frame-order"})
+                break
     mout = driver.call("C12", [1, cap, ops])
     mpaths = dict(zip(["dict", "tuple", "single", "iter", "pandas", "get_field", "iterelites"], mout))
     bad = {k: {"impl": paths[k], "model": mpaths[k]} for k in paths if paths[k] != mpaths[k]}
@@ -612,7 +633,8 @@ def forced_cases():
             mk("Store.retrieve", {"dtype": "float64", "state": "some", "pseed": 1, "cap": 6, "n": 2, "rtype": rt}, {"indices": lay})
         for w in ("Adam", "GradAscent"):
             for k in ("ctor", "reset", "step"):
-                mk("%s.%s" % (w, k), {"dtype": "float64"}, {ARG_NAMES["%s.%s" % (w, k)][0]: lay})
+                for l2 in (0, 1):
+                    mk("%s.%s" % (w, k), {"dtype": "float64", "l2": l2}, {ARG_NAMES["%s.%s" % (w, k)][0]: lay})
         mk("Store.from_raw_dict", {"dtype": "float64", "state": "some", "pseed": 1, "cap": 6}, {"occupied": lay, "solution": lay})
     for em in ("gaussian", "isoline", "es", "gae", "goe", "ga"):
         for which in (("ask", "ask_dqd") if em in ("gae", "goe") else ("ask",)):
